@@ -21,7 +21,8 @@ RULE = ("one run = one bring-up of the real manager process for one configuratio
         "SGX, TCP} x PIN file {valid, absent, invalid, forced change} x onboarded {yes, no, exchange "
         "fails} x reported mode {bootloader, signer, ui-heartbeat, 0xFF, undefined byte} x UI / signer "
         "version triples (grid around 5.4.1 + random) x retries {0,1,2,3,255, exchange fails} x echo "
-        "{ok, altered} x unlock {accepted, refused} x new PIN {accepted, refused, error} x mode after "
+        "{ok, altered} x unlock {accepted, refused} x new PIN {accepted, refused, error} x (SGX, a quarter "
+        "of the runs) another version while locked than after the unlock x mode after "
         "EXIT {signer, bootloader, ui-heartbeat, gone longer than the wait}; enumerated: the full "
         "product of the enum dimensions with versions at 5.4.1; seeded: everything incl. version grid; "
         "non-trivial = at least one APDU was exchanged; distinct = the configuration tuple")
